@@ -39,6 +39,9 @@ package dns
 //@ func (*Client).getTimeoutForRequest [C12]
 //@   requires c != nil
 //@   pure
+// a signature field that is not well-formed base64 yields no signature octets at all (so it cannot verify), not the
+// octets decoded before the first bad character
 //@ func (*RRSIG).sigBuf [C10]
 //@   requires rr != nil
+//@   exit whole: callres("fromBase64", 1) != nil ==> ret0 == nil
 //@ func StringToTime [C07 C05]
